@@ -160,8 +160,13 @@ def judge(ck, rec, c, rres, hdr):
         kind, msg = rres
         code = (re.search(r"E\d{4}", msg) or [None])[0] if kind == "rustc-error" else None
         cls = "C02-%s:%s:%s" % (kind, code or "other", grp)
-        if code == "E0133" and "__BindgenUnionField" in msg:
+        has_bf = any(m["bitfield"] for m in rec.members)
+        if (code == "E0133" and "__BindgenUnionField" in msg) or (rec.kind == "union" and has_bf and code in ("E0133", "E0054")):
+            # a union with bit-fields that is not emitted as a Rust union: accessors call the unsafe __BindgenUnionField::as_ref / as_mut
+            # outside an unsafe block and cast u8 to bool for _Bool fields
             cls = "C02-rustc-error:E0133:union-bitfield"
+        elif code in ("E0277", "E0369") and re.search(r"doesn't implement|can't compare|cannot be applied", msg):
+            cls = "C02-rustc-error:E0277:derive-over-packed-noncopy-member"
         ck.violation(cls, "the bindings for this record type do not compile, so its layout cannot be right (%s)" % msg[:120], dict(data, error=msg))
         return
     if rres is None:
@@ -170,6 +175,8 @@ def judge(ck, rec, c, rres, hdr):
     if rres != c:
         what = "size" if rres["size"] != c["size"] else "align" if rres["align"] != c["align"] else "offset"
         cls = "C02-layout:%s" % grp
+        if rec.kind == "union" and any(m["bitfield"] for m in rec.members):
+            cls = "C02-layout:union-bitfield"
         if grp == "plain":
             cls += ":over-aligned-gap" if has_overaligned_gap(rec, c) else ":" + what
         ck.violation(cls, "size/alignment/offsets of the generated type differ from the C compiler's (%s)" % what, dict(data, rustc=rres))
